@@ -8,12 +8,12 @@ from legs import PROPS
 TEXT = {
  "C01": dict(
   technique="runtime monitoring: recorded stream history vs exactly-once/order oracle; Miri + TSan on the same workload",
-  level="Exploration over schedules and inputs: thousands of multi-producer histories against the real BackgroundQueue with unique ids, seeded schedule perturbation at hook points, scripted per-entry stream errors; an offline checker over the stream's call log decides exactly-once, per-producer order and 'nothing else but the rate-limited report entry'. Miri explores schedules of a tiny instance and watches for data races/UB/leaks; TSan watches the native stress (thorough). Held on the executions produced, nothing more. Also histories without a metrics recorder, and a tracing subscriber installed after the queue was built. Scenarios: last queue handle dropped while the writer is held inside the stream (forgotten / live join handle); shutdown arriving in an old, stalled writer iteration; a leg with a subscriber that filters everything. Pipelines: appends made on a writer thread (a stream forwarding into another queue / feeding its own queue).",
+  level="Exploration over schedules and inputs: thousands of multi-producer histories against the real BackgroundQueue with unique ids, seeded schedule perturbation at hook points, scripted per-entry stream errors; an offline checker over the stream's call log decides exactly-once, per-producer order and 'nothing else but the rate-limited report entry'. Miri explores schedules of a tiny instance and watches for data races/UB/leaks; TSan watches the native stress (thorough). Held on the executions produced, nothing more. Also histories without a metrics recorder, and a tracing subscriber installed after the queue was built. Scenarios: last queue handle dropped while the writer is held inside the stream (forgotten / live join handle); shutdown arriving in an old, stalled writer iteration; a leg with a subscriber that filters everything. Pipelines: appends made on a writer thread (a stream forwarding into another queue / feeding its own queue). The in-band report entry itself refused or failing in two thirds of the histories.",
   note="Trusted: the recording stream (logs under its own lock on the writer thread), the harness flow control that keeps the queue from overflowing (confirmed per history by a local metrics recorder), Miri/TSan themselves.",
   ref="DESIGN.md §7 C01"),
  "C04": dict(
   technique="runtime monitoring: barrier oracle over recorded stream history (incl. gated stream making early completion definite), logical-unit progress bound, stepping the real WakerTracker via hook; Miri + TSan",
-  level="Exploration over schedules and histories. Monitor 1: multi-thread histories with flush requests from every thread; every entry whose append returned before a completed request must be in the stream log before the completion with a stream flush after the last of them; in the gated variant the stream's next()/flush() are held closed and a Ready future is a definite violation. Monitor 2: never-empty queue with a fuel-gated stream: Ready within roundup32(capacity)+64 consumed entries (logical units, no clock). Monitor 3: the real WakerTracker (hook H3) stepped through every op sequence up to a length bound for capacities 1-4 and 10^5-10^6 random long ones, asserting S1/S2/L1. Special scenarios: parked writer with 59 s interval, after shutdown, racing with shutdown. Special scenarios: a request pending with a backlog when shutdown begins (stream fed one entry at a time), bursts of up to 20000 outstanding requests while the writer is held. Streams that refuse entries (errors still count as writer progress). Monitor 2 also with a lock-step producer keeping a small constant backlog.",
+  level="Exploration over schedules and histories. Monitor 1: multi-thread histories with flush requests from every thread; every entry whose append returned before a completed request must be in the stream log before the completion with a stream flush after the last of them; in the gated variant the stream's next()/flush() are held closed and a Ready future is a definite violation. Monitor 2: never-empty queue with a fuel-gated stream: Ready within roundup32(capacity)+64 consumed entries (logical units, no clock). Monitor 3: the real WakerTracker (hook H3) stepped through every op sequence up to a length bound for capacities 1-4 and 10^5-10^6 random long ones, asserting S1/S2/L1. Special scenarios: parked writer with 59 s interval, after shutdown, racing with shutdown. Special scenarios: a request pending with a backlog when shutdown begins (stream fed one entry at a time), bursts of up to 20000 outstanding requests while the writer is held. Streams that refuse entries (errors still count as writer progress). Monitor 2 also with a lock-step producer keeping a small constant backlog. Abandoned requests in the same batch as the awaited one.",
   note="Trusted: recording stream log; 'never' is decided by a progress watchdog (20 s without a meaningful event) only together with logical evidence. Monitor 3 drives the tracker through a cfg(metrique_verif) wrapper that forwards to the private methods unchanged.",
   ref="DESIGN.md §7 C04"),
  "C05": dict(
@@ -48,12 +48,12 @@ TEXT = {
   ref="DESIGN.md §7 C14"),
  "C16": dict(
   technique="runtime monitoring with fault injection: scripted io::Write / EntryIoStream objects, byte-exact oracle against reference records; Miri + ASan on the vectored-write loop",
-  level="Fault enumeration: for every generated record (single, multi-namespace, split into 2-4 lines) every first-write size k in 1..L is tried for vectored and plain writers, then hundreds of random scripts of short writes / Interrupted / Ok(0) / hard errors; received bytes must be a permutation of the reference lines (or a prefix of one on error) and the next entry must be intact. Sinks (queue, FlushImmediately x3, tee) are driven with streams that fail per entry and on flush; each stream must see every entry exactly once. Hard errors of every kind incl. WouldBlock with retry detection; output_to_makewriter path; flush after every append of immediate-flush sinks; eight queues failing together with writers running flat out. A long record through a 1-3-byte writer that is interrupted before every successful call.",
+  level="Fault enumeration: for every generated record (single, multi-namespace, split into 2-4 lines) every first-write size k in 1..L is tried for vectored and plain writers, then hundreds of random scripts of short writes / Interrupted / Ok(0) / hard errors; received bytes must be a permutation of the reference lines (or a prefix of one on error) and the next entry must be intact. Sinks (queue, FlushImmediately x3, tee) are driven with streams that fail per entry and on flush; each stream must see every entry exactly once. Hard errors of every kind incl. WouldBlock with retry detection; output_to_makewriter path; flush after every append of immediate-flush sinks; eight queues failing together with writers running flat out. A long record through a 1-3-byte writer that is interrupted before every successful call. The in-band report refused or failing; twelve kinds of hard error incl. InvalidInput.",
   note="Trusted: the scripted writer/stream as fault model; reference bytes from a Vec writer.",
   ref="DESIGN.md §7 C16"),
  "C06": dict(
   technique="runtime monitoring: append events at a counting sink vs reference condition over exhaustively enumerated single-thread histories and concurrent drop/creation histories; Miri + TSan",
-  level="Exploration over histories and schedules: (a) every single-thread create/drop history over owner, <=3 handles, <=3 flush guards, <=2 force-flush guards within an object bound is executed against the real types and the append count is compared with the reference condition after every operation; (b) the drops of random histories are dealt to 2-4 threads (perturbed at the keep-alive hook points) and flush guards are created concurrently from &owner; exactly one append, not before the drops any linearization needs, content = the owner's last tokens. Miri checks the UnsafeCell / unsafe Send+Sync protocol for races, UB and leaks. Drops by unwinding, Debug observers, force-flush guards created after concurrent flush guards, entries after a caught sink panic, stale force-flush guards of earlier entries. The entry must have reached the sink by the time the last owner/handle drop (or the releasing force-flush drop) has returned.",
+  level="Exploration over histories and schedules: (a) every single-thread create/drop history over owner, <=3 handles, <=3 flush guards, <=2 force-flush guards within an object bound is executed against the real types and the append count is compared with the reference condition after every operation; (b) the drops of random histories are dealt to 2-4 threads (perturbed at the keep-alive hook points) and flush guards are created concurrently from &owner; exactly one append, not before the drops any linearization needs, content = the owner's last tokens. Miri checks the UnsafeCell / unsafe Send+Sync protocol for races, UB and leaks. Drops by unwinding, Debug observers, force-flush guards created after concurrent flush guards, entries after a caught sink panic, stale force-flush guards of earlier entries. The entry must have reached the sink by the time the last owner/handle drop (or the releasing force-flush drop) has returned. The only flush guard held by a slot guard whose slot may have been replaced.",
   note="Trusted: the counting sink (ticket under its lock) as observation point; LIFO symmetry reduction among guards of one kind.",
   ref="DESIGN.md §7 C06"),
  "C10": dict(
@@ -63,7 +63,7 @@ TEXT = {
   ref="DESIGN.md §7 C10"),
  "C11": dict(
   technique="runtime monitoring: differential of closed histogram observations against the recorded inputs (sorted matching), atomic vs non-atomic vs concurrent, re-aggregation; TSan",
-  level="Exploration over inputs and schedules: every bucket boundary of the layout (from the formula) +-1, dense linear region, log-uniform values, repeated observations up to 2^40 occurrences, integer/float/Duration/unit-converted sources; conservation of counts, per-observation error bound, exact sort-and-merge output, equality of atomic / non-atomic / concurrently recorded histograms, and re-aggregation stability. Several recording windows through one strategy object with drain() in between; threads released together into a fresh shared histogram. Zero-occurrence observations; Miri leg. Negative zero; Duration sources with sub-microsecond parts, their conversion checked against harness arithmetic.",
+  level="Exploration over inputs and schedules: every bucket boundary of the layout (from the formula) +-1, dense linear region, log-uniform values, repeated observations up to 2^40 occurrences, integer/float/Duration/unit-converted sources; conservation of counts, per-observation error bound, exact sort-and-merge output, equality of atomic / non-atomic / concurrently recorded histograms, and re-aggregation stability. Several recording windows through one strategy object with drain() in between; threads released together into a fresh shared histogram. Zero-occurrence observations; Miri leg. Negative zero; Duration sources with sub-microsecond parts, their conversion checked against harness arithmetic. Sources writing several observations per call with zero-occurrence ones anywhere.",
   note="Trusted: the value of a Repeated source is total/n in f64; counts < 2^40.",
   ref="DESIGN.md §7 C11"),
  "C12": dict(
